@@ -113,6 +113,8 @@ def plan(tier):
                 cases.append({"level": level, "L": 1100 if level == "1.5" else 1030, "P": 2, "fs": "mcfs", "cache_rpc": None})
                 if level == "1.5":
                     cases.append({"level": level, "L": 8300, "P": 1, "fs": "mcfs", "cache_rpc": None})
+                # requests of 64 KiB and more on the LOCAL filesystem (whose filesystem objects compare equal from open to open)
+                cases.append({"level": level, "L": 1100 if level == "1.5" else 1030, "P": 200 if level == "1.5" else 60, "fs": "local", "cache_rpc": None})
                 if tier == "thorough":
                     cases.append({"level": level, "L": 2500, "P": 1, "fs": "local", "cache_rpc": 100})
             for cache_rpc in (1, 2, 4096) if tier == "thorough" else (2,):
@@ -123,7 +125,7 @@ def plan(tier):
 def run(res, tier, seed):
     res.rule = (
         "L in 1..6 (thorough: 1..10) x rpc in {1..L+4, 1024, 1e9} x level {1.1 (C*8), 1.5 (IU2)}, three images of different size (shorter and longer than the first) per product;"
-        " plus a 100-line product (reads touching up to 100 chunks) at rpc {1,2,3,7,33,99,100,1024} and a 1100-line (1.5) / 1030-line (1.1) product at rpc {1,7,256,1023,1024,1025,L,4096}; an 8300-line product at rpc {1024,4096,8192,8193,L-1,L,L+1,1e9}; SPECAN-style images whose burst layout is consistent with the line count (3x4, 4x3, 2x8), with and without a cache; image files with 1 / 512 bytes of padding behind the last record; every tree fully loaded and compared leaf by leaf with the rpc=1 tree (all pairs for L<=3); cache legs open the"
+        " plus a 100-line product (reads touching up to 100 chunks) at rpc {1,2,3,7,33,99,100,1024} and a 1100-line (1.5) / 1030-line (1.1) product at rpc {1,7,256,1023,1024,1025,L,4096}; an 8300-line product at rpc {1024,4096,8192,8193,L-1,L,L+1,1e9}; 1100x200 / 1030x60 products on the local filesystem (requests of 64 KiB and more); SPECAN-style images whose burst layout is consistent with the line count (3x4, 4x3, 2x8), with and without a cache; image files with 1 / 512 bytes of padding behind the last record; every tree fully loaded and compared leaf by leaf with the rpc=1 tree (all pairs for L<=3); cache legs open the"
         " same product after create_cache=True at another rpc. Every case compares >= 8 trees, all non-trivial."
     )
     res.assumptions = ["identity of all pairs for L>3 follows from comparison with rpc=1 by transitivity"]
